@@ -474,7 +474,7 @@ func c18SanitiserCallers(w *World, r *Report) {
 				}
 				t := mi.X.Type()
 				nm := namedOf(t)
-				if nm == nil || len(secretPaths(nm)) == 0 {
+				if nm == nil || (len(secretPaths(nm)) == 0 && !carriesRawPayload(nm)) {
 					continue
 				}
 				handled := false
@@ -599,4 +599,25 @@ func callUses(mi *ssa.MakeInterface) (ssa.CallInstruction, bool) {
 		}
 	}
 	return nil, false
+}
+
+// carriesRawPayload: the type holds an undecoded request body (a map[string]any field such as CDCRequest.RequestData):
+// a create request's credentials are in it in clear.
+func carriesRawPayload(n *types.Named) bool {
+	t := n.Underlying()
+	if p, ok := t.(*types.Pointer); ok {
+		t = p.Elem().Underlying()
+	}
+	st, ok := t.(*types.Struct)
+	if !ok {
+		return false
+	}
+	for i := 0; i < st.NumFields(); i++ {
+		if m, isMap := st.Field(i).Type().Underlying().(*types.Map); isMap {
+			if it, isI := m.Elem().Underlying().(*types.Interface); isI && it.NumMethods() == 0 {
+				return true
+			}
+		}
+	}
+	return false
 }
